@@ -131,19 +131,25 @@ Definition newer (g : option entry) (mt : N) : bool :=
 
 (* HandleEvent for a Create event on p, split into what it reads (this function: the decision, from the tree)
    and what it writes ([apply_action]).  The second component is the number of errors sent to `errs`.
-   - name ends in _templ.go: os.Stat(source); exists -> nothing; absent -> keep ? nothing : os.Remove(p)
+   - name ends in _templ.go: os.Stat(source); exists -> nothing; absent -> keep ? nothing : os.Remove(p).
+     os.Remove of a directory that is not empty fails: a warning is logged, no error is counted, nothing changes
+     (wf_tree: a directory called *_templ.go always keeps a file no handler removes)
    - UpsertLastModTime: os.Stat(p) fails -> nothing (the map is empty at start and each path gets one event)
    - not .templ -> nothing
-   - .templ: lazy && goFileIsUpToDate -> nothing; else generate: error -> 1 error, no write;
-             ok -> write the sibling (UpsertHash: the hash map is empty in a non-watch run, so always written).
+   - .templ: lazy && goFileIsUpToDate -> nothing; else generate: parse/generate/gofmt error -> 1 error, no write;
+             ok -> write the sibling (UpsertHash: the hash map is empty in a non-watch run, so always written):
+             os.WriteFile on a path that is a directory fails -> "failed to write target file": 1 error, no change.
      devMode is off: no _templ.txt file is read, written or removed.
-   A directory called x.templ fails in parser.Parse (read error). *)
+   A directory called x.templ fails in parser.Parse (read error).
+   goFileIsUpToDate on a directory target compares the directory's mtime, which the model does not have: wf_tree
+   excludes directory targets under -lazy. *)
+Definition is_dir (o : option entry) : bool := match o with Some Dir => true | _ => false end.
 Definition effect (t : fs) (p : path) : action * nat :=
   match source_of p with
   | Some src =>
       match t src with
       | Some _ => (ANone, O)
-      | None => if keep then (ANone, O) else (ARemove p, O)
+      | None => if keep then (ANone, O) else if is_dir (t p) then (ANone, O) else (ARemove p, O)
       end
   | None =>
       match t p with
@@ -157,7 +163,7 @@ Definition effect (t : fs) (p : path) : action * nat :=
               | File c mt =>
                   if lazy && newer (t g) mt then (ANone, O)
                   else match generate p c with
-                       | Some code => (AWrite g code, O)
+                       | Some code => if is_dir (t g) then (ANone, 1%nat) else (AWrite g code, O)
                        | None => (ANone, 1%nat)
                        end
               end
@@ -220,7 +226,8 @@ Definition parent_ok (l : listing) (p : path) : bool :=
   | [] => true
   | last :: rinit => match lookup l (rev rinit, last) with Some Dir => true | _ => false end
   end.
-(* -lazy's documented precondition: a _templ.go newer than its .templ (outside skipped directories) is up to date *)
+(* -lazy's documented precondition: a _templ.go newer than its .templ (outside skipped directories) is up to date;
+   and (model limitation, see [effect]) the target of such a template is not a directory *)
 Definition lazy_ok (generate : path -> bytes -> option bytes) (l : listing) (pe : path * entry) : bool :=
   match snd pe with
   | Dir => true
@@ -233,14 +240,29 @@ Definition lazy_ok (generate : path -> bytes -> option bytes) (l : listing) (pe 
           | Some (File gc gmt) =>
               if N.ltb mt gmt then match generate (fst pe) c with Some code => bytes_eqb code gc | None => false end
               else true
-          | _ => true
+          | Some Dir => false
+          | None => true
           end
       end
+  end.
+(* a directory keeps a file that no handler ever removes: a direct child that is a file not called *_templ.go *)
+Definition stable_child (l : listing) (p : path) : bool :=
+  existsb (fun pe => comps_eqb (fst (fst pe)) (full p)
+                     && match snd pe with File _ _ => true | Dir => false end
+                     && match source_of (fst pe) with None => true | Some _ => false end) l.
+(* a directory may not be called *.templ or *.go - except *_templ.go (an output path blocked by a directory),
+   and then it must stay non-empty *)
+Definition dir_name_ok (l : listing) (pe : path * entry) : bool :=
+  match snd pe with
+  | File _ _ => true
+  | Dir => match source_of (fst pe) with
+           | None => negb (matches_pattern (snd (fst pe)))
+           | Some _ => stable_child l (fst pe)
+           end
   end.
 Definition wf_tree (generate : path -> bytes -> option bytes) (lazy : bool) (root : bytes) (l : listing) : bool :=
   nodupb (map fst l)
   && negb (matches_pattern root)
   && forallb (fun pe => forallb valid_name (full (fst pe)) && parent_ok l (fst pe)) l
-  (* no directory is called *.go or *.templ *)
-  && forallb (fun pe => match snd pe with Dir => negb (matches_pattern (snd (fst pe))) | File _ _ => true end) l
+  && forallb (dir_name_ok l) l
   && (negb lazy || forallb (lazy_ok generate l) l).
